@@ -1,6 +1,31 @@
 // ================= U25 prelude: TRUSTED stand-ins =================
 #[verifier::external_body] #[verifier::reject_recursive_types(T)] pub struct OnceLock<T> { p: core::marker::PhantomData<T> }
 #[verifier::external_body] #[verifier::reject_recursive_types(K)] #[verifier::reject_recursive_types(V)] pub struct DashMap<K, V> { p: core::marker::PhantomData<(K, V)> }
+#[verifier::external_body] #[verifier::reject_recursive_types(K)] #[verifier::reject_recursive_types(V)] pub struct Entry<'a, K, V> { p: core::marker::PhantomData<&'a (K, V)> }
+#[verifier::external_body] #[verifier::reject_recursive_types(K)] #[verifier::reject_recursive_types(V)] pub struct RefMut<'a, K, V> { p: core::marker::PhantomData<&'a (K, V)> }
+/// rely/guarantee invariant of the cell stored under address `a` (bound to the planner by wf())
+pub uninterp spec fn cell_inv<T>(a: Address, v: T) -> bool;
+impl<T> OnceLock<T> {
+    /// the address under which this cell is stored in the planner's cache
+    pub uninterp spec fn slot(&self) -> Address;
+    #[verifier::external_body] pub fn new() -> (r: Self) { unimplemented!() }
+    /// stores the initialiser's value only if the cell is still empty; returns the stored value, whoever stored it
+    #[verifier::external_body] pub fn get_or_init<F: FnOnce() -> T>(&self, f: F) -> (r: &T)
+        requires f.requires(()), forall|v: T| f.ensures((), v) ==> cell_inv(self.slot(), v),      //@ID oncelock_init.P1 : C13
+        ensures cell_inv(self.slot(), *r) { unimplemented!() }
+}
+impl<'a, K, V> RefMut<'a, K, V> { pub uninterp spec fn view(&self) -> V; }
+impl<'a, K, V> Deref for RefMut<'a, K, V> { type Target = V; #[verifier::external_body] fn deref(&self) -> (r: &V) ensures *r == self@ { unimplemented!() } }
+impl<K, V> DashMap<K, V> {
+    #[verifier::external_body] pub fn new() -> (r: Self) { unimplemented!() }
+    #[verifier::external_body] pub fn entry(&self, k: K) -> (r: Entry<'_, K, V>) ensures r.key() == k { unimplemented!() }
+}
+impl<'a, K, V> Entry<'a, K, V> { pub uninterp spec fn key(&self) -> K; }
+impl<'a, S> Entry<'a, Address, Arc<OnceLock<S>>> {
+    /// the cell handed out for key k is "the cell stored under k" (definition of `slot`)
+    #[verifier::external_body] pub fn or_insert_with<F: FnOnce() -> Arc<OnceLock<S>>>(self, f: F) -> (r: RefMut<'a, Address, Arc<OnceLock<S>>>)
+        requires f.requires(()), ensures (*r@).slot() == self.key() { unimplemented!() }
+}
 use std::sync::Arc;
 pub struct TxEnv { pub caller: Address, pub value: U256, pub gas_limit: u64, pub gas_price: u128 }
 impl TxEnv {
@@ -20,3 +45,24 @@ pub open spec fn suffix_cost(txs: Seq<TxEnv>, ids: Seq<TxId>, j: int) -> nat dec
 pub assume_specification<T: Clone>[ <[T]>::to_vec ](s: &[T]) -> (v: Vec<T>) ensures v@ == s@;
 pub assume_specification<T, E>[ Result::<T, E>::unwrap_or ](r: Result<T, E>, d: T) -> (o: T)
     ensures o == (match r { Ok(v) => v, Err(_) => d });
+
+// ---- planner vocabulary ----
+/// the saturating-suffix schedule of the account whose transactions are `ids`
+spec fn sched_ok(txs: Seq<TxEnv>, ids: Seq<TxId>, v: AccountReserveSchedule) -> bool {
+    v.txids@ == ids && v.cost_from@.len() == ids.len() && forall|j: int| 0 <= j < ids.len() ==> (#[trigger] v.cost_from@[j])@ == suffix_cost(txs, ids, j)
+}
+pub open spec fn ascending(ids: Seq<TxId>) -> bool { forall|i: int, j: int| 0 <= i < j < ids.len() ==> ids[i] < ids[j] }
+/// j is where the account's transactions strictly after txid begin
+pub open spec fn split_at(ids: Seq<TxId>, txid: TxId, j: int) -> bool {
+    0 <= j <= ids.len() && (j < ids.len() ==> ids[j] > txid) && (forall|i: int| 0 <= i < j ==> ids[i] <= txid) && (forall|i: int| j <= i < ids.len() ==> ids[i] > txid)
+}
+impl ReservePlanner {
+    /// abstract sender index: caller -> ascending list of its txids (what sender_index() computes)
+    uninterp spec fn idx(&self) -> Map<Address, Seq<TxId>>;
+    spec fn wf(&self) -> bool {
+        &&& forall|a: Address| #[trigger] self.idx().contains_key(a) ==> ascending(self.idx()[a]) && forall|j: int| 0 <= j < self.idx()[a].len() ==> self.idx()[a][j] < self.txs@.len()
+        &&& forall|a: Address, v: AccountReserveSchedule| #[trigger] cell_inv(a, v) <==> (self.idx().contains_key(a) && sched_ok(self.txs@, self.idx()[a], v))
+    }
+}
+impl AccountReserveSchedule { spec fn wf(&self) -> bool { self.txids.len() == self.cost_from.len() && ascending(self.txids@) } }
+#[verifier::external_body] proof fn axiom_address_key_model() ensures vstd::std_specs::hash::obeys_key_model::<Address>() {}
